@@ -51,10 +51,17 @@ func (_ dimensionSetter) UpdateProperties(po tabular.PropertyOwner) error {
 		lineCount = dims.height
 	}
 	linesWidths := make([]decoration.WidthString, lineCount)
+	_, declaresWidth := cell.Item().(tabular.TerminalCellWidther)
 	for i, l := range lines {
+		w := length.StringCells(l)
+		if declaresWidth && len(lines) == 1 {
+			// the object overrides our measure of its (only) line, eg because
+			// the text carries terminal escape sequences
+			w = dims.cellWidth
+		}
 		linesWidths[i] = decoration.WidthString{
 			S: l,
-			W: length.StringCells(l),
+			W: w,
 		}
 	}
 
